@@ -266,7 +266,22 @@ func (c *Ctx) scanTables() *scanTables {
 				var found *ast.FuncDecl
 				ast.Inspect(rs.Body, func(y ast.Node) bool {
 					if call, ok := y.(*ast.CallExpr); ok && len(call.Args) >= 1 && elem != nil && argIs(info, call, elem) {
-						if cf := calleeOf(info, call); cf != nil {
+						cf := calleeOf(info, call)
+						if id, isId := ast.Unparen(call.Fun).(*ast.Ident); isId && cf == nil {
+							// a method value bound once to a local:  found := v.foundToken
+							if owner := tableHelperOf[body]; owner != nil || body == ast.Node(st.scanLoop.Body) {
+								var scope ast.Node = st.scanFD
+								if owner != nil {
+									scope = owner
+								}
+								if sel, ok := initOfDeep(info, scope, id).(*ast.SelectorExpr); ok {
+									if s, ok := info.Selections[sel]; ok && s.Kind() == types.MethodVal {
+										cf, _ = s.Obj().(*types.Func)
+									}
+								}
+							}
+						}
+						if cf != nil {
 							if d := c.declOf(cf); d != nil {
 								found = d
 							}
